@@ -32,6 +32,12 @@ def run(eng, rep) -> None:
     rep.rule("R10.1", "every path to gen passes the consumed verify verdict; registration dominates verification; @catch present")
     rep.rule("R10.2", "no filesystem-mutating primitive reachable pre-gate; gen/handle_result/_handle_file have only the sanctioned callers")
     rep.rule("R10.3", "bytes written are result['contents'] to result['path'] for each returned record; no plug-in generate is lazy; CLI reports errors")
+    rep.rule("R10.5", "the nodes that checks run over are not read back from a mapping keyed by an attribute (equal keys collapse)")
+    from .lints import population_through_dict
+    population_through_dict(eng, rep, "R10.5", ("fcp.verifier",), "nodes that share a name with a later one (an impl named like another protocol's impl) are never verified, so what the checks would reject reaches the generators")
+    rep.rule("R10.4", "groups made by itertools.groupby over an unsorted registry are not stored by key with overwrite")
+    from .lints import groupby_overwrite
+    groupby_overwrite(eng, rep, "R10.4", ("fcp.verifier", "fcp.codegen"), "checks registered earlier under that category are never run, so a schema they would reject reaches the generators")
     rep.assume("filesystem-mutating primitives are those in the frozen table sa/rules/common.py:FS_*; writes through C extensions or subprocesses named otherwise are not seen")
     rep.assume("plug-ins are the packages under plugins/*/ (the installed generators of this repository)")
 
